@@ -24,7 +24,7 @@ Require Import Cirbo.Proofs.FuncProtoEnum Cirbo.Proofs.FuncProtoLoops Cirbo.Proo
 Require Import Cirbo.Model.FuncProtoCases.
 Require Import Cirbo.Generated.TruthTableCore.
 Require Import Cirbo.Proofs.TruthTableGenPrim Cirbo.Proofs.TruthTableGenTT Cirbo.Proofs.TruthTableGenModel
-        Cirbo.Proofs.TruthTableGenAll.
+        Cirbo.Proofs.TruthTableGenPy Cirbo.Proofs.TruthTableGenAll.
 
 (* ---- enumeration orders ---- *)
 
@@ -212,13 +212,14 @@ Proof. exact xor2_represented. Qed.
 (* ---- the second tie to the code: the model above is what the source says ----
 
    Generated/TruthTableCore.v is produced from cirbo/core/utils.py, cirbo/core/circuit/utils.py
-   (input_iterator_with_fixed_sum) and cirbo/core/truth_table.py by translator/t11_truth_table.py on every
-   check, statement by statement (gen_<function>, gen_<Class>_<method>).  Each regenerated definition equals
+   (input_iterator_with_fixed_sum), cirbo/core/truth_table.py and cirbo/core/python_function.py (constructor
+   and protocol methods of PyFunction / PyFunctionModel; the callable is a Gallina function) by
+   translator/t11_truth_table.py on every check, statement by statement (gen_<function>, gen_<Class>_<method>).  Each regenerated definition equals
    the hand-model function the theorems above speak about.  Python ints are Z in the generated code; the hand
    model's sizes and indices are naturals, hence the arguments Z.of_nat _ (negative Python indices are outside
    the hand model).  An object is the record of the attributes that its __init__ assigns; gen_of_ttab t /
-   gen_of_tm t is the object that the hand model's t stands for; rmap maps over an Ok result.  No condition on
-   the shape of the table is needed, except for TruthTableModel.define, whose final TruthTable(...) looks at
+   gen_of_tm t / gen_of_py p / gen_of_pm p is the object that the hand model's t / p stands for; rmap maps over
+   an Ok result.  No condition on the shape of the table is needed, except for TruthTableModel.define, whose final TruthTable(...) looks at
    the shape before it parses the cells while the hand model parses first: the two agree when the table of
    the model has a valid shape, which every constructed TruthTableModel has (second statement below). *)
 Theorem C12_truth_table_regenerated :
@@ -267,7 +268,48 @@ Theorem C12_truth_table_regenerated :
   (forall t x (j : nat), gen_TruthTableModel_check_at (gen_of_tm t) x (Z.of_nat j) = tm_check_at t x j) /\
   (forall t, gen_TruthTableModel_get_model_truth_table (gen_of_tm t) = Ok (tm_table t)) /\
   (forall t d n, resolve_input_size (tm_table t) = Ok n ->
-     gen_TruthTableModel_define (gen_of_tm t) (map zitem d) = rmap gen_of_ttab (tm_define t d)).
+     gen_TruthTableModel_define (gen_of_tm t) (map zitem d) = rmap gen_of_ttab (tm_define t d)) /\
+  (* class PyFunction (the callable is a Gallina function): constructor and protocol methods *)
+  (forall func (n : nat) (out : option nat),
+     gen_PyFunction___init__ func (Z.of_nat n) (option_map Z.of_nat out) = rmap gen_of_py (py_make func n out)) /\
+  (forall p, gen_PyFunction_input_size (gen_of_py p) = Ok (Z.of_nat (r_n (py_rep p)))) /\
+  (forall p, gen_PyFunction_output_size (gen_of_py p) = Ok (Z.of_nat (r_m (py_rep p)))) /\
+  (forall p x, gen_PyFunction_evaluate (gen_of_py p) x = r_ev (py_rep p) x) /\
+  (forall p x (j : nat), gen_PyFunction_evaluate_at (gen_of_py p) x (Z.of_nat j) = r_ev_at (py_rep p) x j) /\
+  (forall p, gen_PyFunction_is_constant (gen_of_py p) = g_is_constant (py_rep p)) /\
+  (forall p (j : nat), gen_PyFunction_is_constant_at (gen_of_py p) (Z.of_nat j) = g_is_constant_at (py_rep p) j) /\
+  (forall p inverse, gen_PyFunction_is_monotone (gen_of_py p) inverse = py_is_monotone p inverse) /\
+  (forall p (j : nat) inverse,
+     gen_PyFunction_is_monotone_at (gen_of_py p) (Z.of_nat j) inverse = py_is_monotone_at p j inverse) /\
+  (forall p, gen_PyFunction_is_symmetric (gen_of_py p) = g_is_symmetric (py_rep p)) /\
+  (forall p (j : nat), gen_PyFunction_is_symmetric_at (gen_of_py p) (Z.of_nat j) = g_is_symmetric_at (py_rep p) j) /\
+  (forall p (j i : nat),
+     gen_PyFunction_is_dependent_on_input_at (gen_of_py p) (Z.of_nat j) (Z.of_nat i) = g_is_dependent (py_rep p) j i) /\
+  (forall p (j i : nat),
+     gen_PyFunction_is_output_equal_to_input (gen_of_py p) (Z.of_nat j) (Z.of_nat i)
+     = g_equal_to_input false (py_rep p) j i) /\
+  (forall p (j i : nat),
+     gen_PyFunction_is_output_equal_to_input_negation (gen_of_py p) (Z.of_nat j) (Z.of_nat i)
+     = g_equal_to_input true (py_rep p) j i) /\
+  (forall p (j : nat),
+     gen_PyFunction_get_significant_inputs_of (gen_of_py p) (Z.of_nat j)
+     = rmap (map Z.of_nat) (g_significant (py_rep p) j)) /\
+  (forall p (outs : list nat),
+     gen_PyFunction_find_negations_to_make_symmetric (gen_of_py p) (map Z.of_nat outs)
+     = g_find_negations (py_rep p) outs) /\
+  (forall p, gen_PyFunction_get_truth_table (gen_of_py p) = g_truth_table (py_rep p)) /\
+  (* class PyFunctionModel *)
+  (forall func (n : nat) (out : option nat),
+     gen_PyFunctionModel___init__ func (Z.of_nat n) (option_map Z.of_nat out)
+     = match out with
+       | Some m => Ok (gen_of_pm (mkPM n m func))
+       | None => do r <- func (repeat false n); Ok (gen_of_pm (mkPM n (length r) func))
+       end) /\
+  (forall p, gen_PyFunctionModel_input_size (gen_of_pm p) = Ok (Z.of_nat (pm_n p))) /\
+  (forall p, gen_PyFunctionModel_output_size (gen_of_pm p) = Ok (Z.of_nat (pm_m p))) /\
+  (forall p x, gen_PyFunctionModel_check (gen_of_pm p) x = pm_check p x) /\
+  (forall p x (j : nat), gen_PyFunctionModel_check_at (gen_of_pm p) x (Z.of_nat j) = pm_check_at p x j) /\
+  (forall p, gen_PyFunctionModel_get_model_truth_table (gen_of_pm p) = pm_model_truth_table p).
 Proof. exact truth_table_regenerated. Qed.
 
 (* the hypothesis of the last conjunct holds for every model that the constructor accepts *)
